@@ -53,6 +53,15 @@ def worker(quick: int = 600, thorough: int = 12000):
     return run
 
 
+def options():
+    def run(tier: str, seed: int, prop: str) -> CompResult:
+        import t1_options
+
+        return t1_options.run(tier, seed)
+
+    return run
+
+
 LB = ["load", "worksteal", "loadscope", "loadfile", "loadgroup"]
 
 PROPS: dict[str, dict[str, Any]] = {
@@ -77,6 +86,12 @@ PROPS: dict[str, dict[str, Any]] = {
         "components": [sched(["load", "worksteal", "loadscope", "loadfile", "loadgroup", "each"], crash=0.08)],
         "assumptions": ["theorems cover load and worksteal; the loadscope family and each are covered by the correspondence + wire monitors only",
                         "load: the first schedule() does not check shutting_down (stated as hypothesis, witness proved)"],
+    },
+    "C13": {
+        "components": [options()],
+        "assumptions": ["argparse / pytest's own option parsing (argv, addopts, PYTEST_ADDOPTS -> config.option) is exercised, not modelled",
+                        "the CPU count is an environment parameter of the model (measured with os.sched_getaffinity)",
+                        "int() of non-ASCII digit strings is outside the model"],
     },
     "C15": {
         "components": [sched(["load", "worksteal"], crash=0.15)],
